@@ -53,9 +53,28 @@ impl Sx {
             }
         }
     }
+    /// flat form for traces: {"a":[..]} | {"s":[items..], "t": terminator}; the right spine of a list is
+    /// one JSON array (the TLA+ Json module refuses nesting deeper than 255)
+    pub fn to_jsonf(&self) -> Value {
+        match self {
+            Sx::A(b) => json!({"a": jbytes(b)}),
+            Sx::P(..) => {
+                let mut items = Vec::new();
+                let mut cur = self;
+                while let Sx::P(l, r) = cur {
+                    items.push(l.to_jsonf());
+                    cur = r;
+                }
+                json!({"s": items, "t": cur.to_jsonf()})
+            }
+        }
+    }
     pub fn from_json(v: &Value) -> Sx {
         if let Some(a) = v.get("a") {
             Sx::A(from_jbytes(a))
+        } else if let Some(s) = v.get("s") {
+            let items: Vec<Sx> = s.as_array().map(|x| x.iter().map(Sx::from_json).collect()).unwrap_or_default();
+            Sx::list_tail(items, Sx::from_json(&v["t"]))
         } else {
             Sx::cons(Sx::from_json(&v["l"]), Sx::from_json(&v["r"]))
         }
